@@ -27,3 +27,15 @@ impl ArchivedMetadata {
         ensures r == Ok::<Metadata, ()>(spec_decode(self.bytes@))
     { unimplemented!() }
 }
+
+impl AlignedVec {
+    // `&aligned[..]`
+    pub fn as_slice(&self) -> (r: &[u8]) ensures r@ == self@ { self.v.as_slice() }
+}
+// rkyv::check_archived_root::<Metadata>(bytes): the validating entry point (bytecheck). `valid_archive` is "passes validation";
+// A-RKYV: validation is sound (every later access through the returned reference stays inside `bytes`) and
+// to_bytes(m) always validates (round trip, see rkyv_write.rs).
+#[verifier::external_body]
+pub fn rkyv_check_archived_root_metadata(a: &[u8]) -> (r: Result<ArchivedMetadata, ()>)
+    ensures (r is Ok) == valid_archive(a@), r matches Ok(x) ==> x.bytes@ == a@
+{ unimplemented!() }
